@@ -524,43 +524,76 @@ PROPS = {
         driver="C12",
         model="Model/Teardown.v",
         run_fn="run_tdcase",
-        theorems=["C12_teardown_memory_safe", "C12_teardown_log_safe", "C12_teardown_releases_everything",
+        theorems=["C12_teardown_memory_safe", "C12_teardown_memory_safe_fixed", "C12_teardown_log_safe",
+                  "C12_teardown_log_safe_fixed", "C12_teardown_releases_everything",
                   "C12_teardown_exactly_once", "C12_teardown_of_populations",
                   "C12_fd_dropped_after_ring_refuted", "C12_abandoned_ops_beyond_cq_capacity_refuted",
-                  "C12_teardown_releases_everything_fixed"],
-        rule="one splitmix64 stream per case (VERIF_SEED, index) on the simulated kernel: a Ring with (sq, cq) entries in "
-             "{(2,2), (2,4), (4,4), (4,8)} and random 32-bit start counters; 0..2 SubmissionQueue clones; 0..3 AsyncFds "
-             "over fake descriptors; 0..4 operations, each on a random AsyncFd (read into a Vec, multishot accept) or "
-             "owning a SubmissionQueue (socket), each in a starting state from {never polled, submission queued, in "
-             "flight, final completion processed but result not taken, finished} (one case in three with mostly "
-             "in-flight operations so that the drain overflows), queued ones limited to the queue size; 0..2 "
-             "ReadBufPools with 0..2 ReadBufs each, obtained through a completed pool read on a throw-away descriptor; "
-             "the drop order is a random permutation of all objects with every future before the AsyncFd it borrows "
-             "(a quarter each: Ring first, Ring last) and 0..2 kernel completions of random operations inserted at "
-             "random positions; every case runs in a forked child. Thorough: 20 000 cases, all 120 orders of a fixed "
-             "population of five objects (ring, clone, fd, in-flight read on it, pool; the 60 orders the borrow checker "
-             "accepts are run), and 48 populations on the real kernel (pipes, in-flight/queued/unstarted reads, pools "
-             "with buffers from real reads) checked only by /proc/self/fd, /proc/self/maps and the number of live heap "
+                  "C12_op_in_flight_after_ring_drop_refuted", "C12_op_in_flight_after_ring_drop_refuted_notification",
+                  "C12_teardown_releases_everything_fixed", "C12_teardown_of_populations_fixed",
+                  "C12_seeded_c12c_releases_state_in_flight_refuted",
+                  "C12_seeded_c12c_uses_released_state_in_drain_refuted",
+                  "C12_seeded_c01f_releases_state_in_flight_refuted"],
+        rule="one splitmix64 stream per case (VERIF_SEED, index) on the simulated kernel (strict_cancel mode): a Ring with "
+             "(sq, cq) entries in {(2,2), (2,4), (4,4), (4,8)} and random 32-bit start counters; 0..2 SubmissionQueue "
+             "clones; 0..3 AsyncFds over fake descriptors (regular or direct), in 3 cases of 8 each regular one with "
+             "probability 1/2 marked not cancellable (every operation on it survives ASYNC_CANCEL and the blanket "
+             "REGISTER_SYNC_CANCEL, which then fails with ETIME); 0..4 operations, each on a random AsyncFd (read into a "
+             "Vec, multishot accept) or owning a SubmissionQueue (socket), each in a starting state from {never polled, "
+             "submission queued, in flight, final completion processed but result not taken, finished} (one case in "
+             "three with mostly in-flight operations so that the drain overflows), in 3 cases of 8 plus 1..2 zero-copy "
+             "sends (send(Vec).zc(): result with F_MORE, then the notification) in one of eight starting states (the "
+             "five, and: result processed / notification outstanding; abandoned before the result was processed, "
+             "notification outstanding; abandoned and both completions processed by Ring::poll during set-up = state "
+             "released in set-up), queued ones limited to the queue size; 0..2 ReadBufPools with 0..2 ReadBufs each, "
+             "obtained through a completed pool read on a throw-away descriptor; the drop order is a random permutation "
+             "of all objects with every live future before the AsyncFd it borrows (a quarter each: Ring first, Ring "
+             "last) and 0..4 kernel steps (KComplete o = the next completion of o: the result of a zero-copy send "
+             "whose result is due, else the final completion) inserted at random positions including after the Ring "
+             "and after the last drop; every case runs in a forked child with the watched state boxes and their "
+             "buffers quarantined (a use after free reads stale memory instead of crashing) and a free-time probe of "
+             "the simulated kernel's tables. Thorough: 20 000 cases, all 120 orders of a fixed population of five "
+             "objects (ring, clone, fd, in-flight read on it, pool; the 60 orders the borrow checker accepts are run), "
+             "1 890 cases of a second exhaustive family (ring, fd0 with an in-flight zero-copy send, not-cancellable "
+             "fd1 with an in-flight read: the 30 admissible orders of the five drops x the 63 placements of two kernel "
+             "steps), and 48 populations on the real kernel (pipes, in-flight/queued/unstarted reads, pools with "
+             "buffers from real reads) checked only by /proc/self/fd, /proc/self/maps and the number of live heap "
              "blocks; non-trivial = at least three drops; distinct by the Coq case term",
         assumptions=["kernel contract K1-K4 (DESIGN.md §5) as the simulated kernel implements it: submissions consumed "
-                     "in order on enter; CLOSE executes at once; ASYNC_CANCEL of an in-flight request posts the target's "
-                     "final completion (cancellation always wins in these cases); REGISTER_SYNC_CANCEL(ANY|ALL) posts a "
-                     "final completion for everything in flight; a completion goes into the ring when there is room and "
-                     "the overflow list is empty, else onto the overflow list; every enter flushes the overflow list "
-                     "into free slots",
-                     "no kernel submission thread (IORING_SETUP_SQPOLL off); munmap, close and io_uring_register succeed",
+                     "in order on enter; CLOSE executes at once; a request is cancellable iff it is in flight, the kernel "
+                     "is able to cancel it (not in d_surv) and it is not a two-step request whose result has been "
+                     "posted; ASYNC_CANCEL of a cancellable request posts its final completion (a two-step request "
+                     "whose result is due posts (-ECANCELED, F_MORE) and then the notification), of any other request "
+                     "EALREADY / ENOENT; REGISTER_SYNC_CANCEL(ANY|ALL) does the same for everything cancellable in "
+                     "flight, in order, leaves the rest in flight and then fails with ETIME (Completions::drop logs "
+                     "that and continues); K2: a two-step request posts its result with F_MORE and later a final "
+                     "notification, in that order; a completion goes into the ring when there is room and the overflow "
+                     "list is empty, else onto the overflow list; every enter flushes the overflow list into free "
+                     "slots; the kernel may complete a request at any time, also after the Ring and every handle are "
+                     "gone (nobody processes that completion)",
+                     "no kernel submission thread (IORING_SETUP_SQPOLL off: no operation is started after the Ring was "
+                     "dropped); munmap, close and io_uring_register(UNREGISTER_PBUF_RING) succeed",
                      "a future is not dropped after the AsyncFd it borrows (borrows_ok: enforced by the borrow checker); "
                      "every object is dropped at most once (ownership; the model ignores a second drop)",
                      "operation resources do not themselves hold a ReadBuf / ReadBufPool (reads into pool buffers are "
                      "completed before the teardown starts); ReadBufs are owned buffers (release writes the pool ring)",
-                     "the theorems are stated over any state satisfying the invariant wf; init_wf proves it for every "
-                     "population whose operations name existing AsyncFds and whose ReadBufs name existing pools",
-                     "H13 (fd-dropped-after-ring) and H14 (abandoned-ops-beyond-cq-capacity) are named exceptions of "
+                     "the theorems are stated over any state satisfying the invariant wf (reference counts = live "
+                     "holders, one final completion due per running or abandoned operation, every posted F_MORE result "
+                     "followed by its final completion); init_wf proves it for every population whose operations name "
+                     "existing AsyncFds and whose ReadBufs name existing pools",
+                     "C12_teardown_memory_safe(_fixed) and C12_teardown_log_safe(_fixed) have NO exclusion: the handler "
+                     "only touches allocated states and no state is released while a request of its operation is in "
+                     "flight or its final completion is unprocessed (log_due_safe)",
+                     "H13 (fd-dropped-after-ring), H14 (abandoned-ops-beyond-cq-capacity, before fbe02e5) and H28 "
+                     "(op-in-flight-after-ring-drop: the operation survived the blanket cancellation or only its "
+                     "notification is outstanding; its state and buffer are never released) are named exceptions of "
                      "C12_teardown_releases_everything, each with a witness; the model wired into the correspondence is "
-                     "drop_ring (the code as it is), drop_ring_fixed models proposed_fix_h14.diff"],
+                     "drop_ring_fixed (the code as it is after fbe02e5: C12_teardown_releases_everything_fixed names "
+                     "H28 and H13 only); step_c12c / step_c01f model the seeded changes C12-c / C01-f for the "
+                     "C12_seeded_*_refuted witnesses"],
         trusted=["simulated kernel harness/src/simk.rs (twin of the kernel contract K1-K8; notes a closed ring "
                  "descriptor at the next ring call)",
-                 "tracking allocator harness/src/alloc.rs (frees of watched addresses, frees of blocks that are not live)",
+                 "tracking allocator harness/src/alloc.rs (frees of watched addresses, frees of blocks that are not live; "
+                 "quarantine of watched blocks and the free-time probe used by C12)",
                  "a10 verif hook A (src/verif.rs): enter, register, mmap, munmap, close",
                  "fcntl(F_GETFD) as the account of whether the ring descriptor is open; /proc/self/fd and "
                  "/proc/self/maps in the real-kernel tier",
@@ -715,3 +748,9 @@ PROPS["C06"]["also_drivers"] = PROPS["C06"]["also_drivers"] + ["C12"]
 PROPS["C05"]["also_drivers"] = ["C02"]
 PROPS["C13"]["also_drivers"] = PROPS["C13"]["also_drivers"] + ["C15"]
 PROPS["C12"]["also_drivers"] = ["C06"]
+# C01: the memory an operation has handed to the kernel must also outlive the Ring: a request that
+# is still in flight after the Ring was dropped (it survived the blanket cancellation, or it is a
+# zero-copy send whose notification is outstanding) keeps its state and buffer; the history driver
+# of C01 never drops the Ring before a future, C12's driver does (its oracle: no state box or
+# buffer is released while the simulated kernel has the request in flight; seed C01-f).
+PROPS["C01"]["also_drivers"] = PROPS["C01"]["also_drivers"] + ["C12"]
